@@ -220,6 +220,8 @@ def grid_hash_unit(kind):
                 per = [z3.Bool(f"periodic{a}_{tag}") for a in range(num_axes)]
                 for a in range(num_axes):
                     it.ctx.assume(z3.And(N[a] >= 1, hi[a] > lo[a]))
+                if kind != "CartesianGrid":
+                    it.ctx.assume(lo[0] >= 0)  # radial axis
                 from ..arrays import fresh_array
                 dx = [(hi[a] - lo[a]) / z3.ToReal(N[a]) for a in range(num_axes)]
                 disc = fresh_array(f"discretization_{tag}", (num_axes,), lambda idx, dx=dx: dx[idx[0]] if isinstance(idx[0], int) else (dx[0] if num_axes == 1 else z3.If(to_z3(idx[0]) == 0, dx[0], dx[1])))
@@ -250,12 +252,23 @@ def _payload_eq(a, b):
     """equality of two hash terms of the injective model as a formula over their symbolic leaves"""
     if isinstance(a, H) and isinstance(b, H):
         return _payload_eq(a.payload, b.payload)
+    if isinstance(a, tuple) and isinstance(b, tuple) and len(a) == 2 and len(b) == 2 and isinstance(a[0], str) and isinstance(b[0], str) and a[0] == "repr-of-number" and b[0] == "repr-of-number":
+        return to_z3(a[1]) == to_z3(b[1])  # numbers hashed through their representation: no collisions
     if isinstance(a, (tuple, list)) and isinstance(b, (tuple, list)):
         if len(a) != len(b):
             return z3.BoolVal(False)
         return z3.And(*[_payload_eq(x, y) for x, y in zip(a, b)]) if a else z3.BoolVal(True)
+    if isinstance(a, tuple) and isinstance(b, tuple) and len(a) == 2 and len(b) == 2 and isinstance(a[0], str) and isinstance(b[0], str) and a[0] == b[0] == "repr-of-number":
+        return to_z3(a[1]) == to_z3(b[1])  # numbers hashed through their representation: no collisions
     if is_sym(a) or is_sym(b):
-        return to_z3(a) == to_z3(b)
+        # numbers that reach the builtin hash(): equal hashes for equal numbers and for the pair -1 / -2 (CPython)
+        from fractions import Fraction
+        if not all(is_sym(v) or isinstance(v, (int, float, Fraction, bool)) for v in (a, b)):
+            return z3.BoolVal(False)  # a number against a string / None / object
+        x, y = to_z3(a), to_z3(b)
+        if z3.is_bool(x) or z3.is_bool(y):
+            return x == y
+        return z3.Or(x == y, z3.And(x == -1, y == -2), z3.And(x == -2, y == -1))
     if isinstance(a, H) or isinstance(b, H):
         return z3.BoolVal(False)
     return z3.BoolVal(a == b)
